@@ -216,8 +216,13 @@ class PoolExec:
 
     def time_passes(self) -> None:
         """The clock runs past keepalive_timeout; no timer callback has run yet."""
-        held = {self.held_conn(n) for n in self.names}
-        self.stale |= {c for c in self.pooled if c not in held and not self.transports[c].closing}
+        # (refinement clause only, so the connector's own pool may be consulted: a traced caller that
+        #  already took a connection but still sits in its reuseconn callback holds it invisibly)
+        try:
+            in_pool = {self.proto_owner.get(id(p)) for v in self.connector._conns.values() for p, _ in v}  # type: ignore[attr-defined]
+        except Exception:  # noqa: BLE001
+            in_pool = set(self.pooled)
+        self.stale |= {c for c in self.pooled if c in in_pool and not self.transports[c].closing}
         self.loop._vtime += self.KA + 1
         self.rec("timepass")
 
